@@ -163,10 +163,27 @@ def run_case(ctx, case):
                   True, "(%d,%d)-(%d,%d)" % (l, c, el, ec))
         # ---- inline of single-assignment variables
         assigns = [(m.start(), m.group(1)) for m in re.finditer(r"^(pv_\w+) = ", text, re.M) if m.group(1) not in case.get("impure", [])]
-        for _ in range(3):
+        # stratified by the syntactic class of the right-hand side (bare tuple, operator, call, ...): the first picks go
+        # to distinct classes, rarest class first, so that one frequent shape does not take all three
+        import ast as _ast
+        rhs_kind = {}
+        try:
+            for node in _ast.parse(text).body:
+                if isinstance(node, _ast.Assign) and len(node.targets) == 1 and isinstance(node.targets[0], _ast.Name):
+                    seg = text.split("\n")[node.value.lineno - 1][node.value.col_offset:node.value.col_offset + 1]
+                    rhs_kind[node.targets[0].id] = type(node.value).__name__ + ("-bare" if isinstance(node.value, _ast.Tuple) and seg != "(" else "")
+        except SyntaxError:
+            pass
+        by_kind = {}
+        for off, name in assigns:
+            by_kind.setdefault(rhs_kind.get(name, "?"), []).append((off, name))
+        strata = sorted(by_kind, key=lambda k: (len(by_kind[k]), k))
+        for i in range(3):
             if not assigns:
                 break
-            off, name = assigns[picks.pop() % len(assigns)]
+            pool = by_kind[strata[(picks.pop() + i) % len(strata)]] if i < 2 else assigns
+            off, name = pool[picks.pop() % len(pool)]
+            ctx.cls("inline-rhs:" + rhs_kind.get(name, "?"))
             l = text[:off].count("\n") + 1
             judge("inline", "single-assignment", lambda s: s.inline(l, 1), True, "%s at line %d" % (name, l))
         # ---- arbitrary ranges (compile-or-refuse only)
